@@ -269,7 +269,39 @@ one (int pi, int ci, int ni, int fill, int do_hash)
   if (vh_distinct (vh_hash_str (S, 5)))
     vh_stat ("distinct_nontrivial", 1);
   if (!do_hash)
-    return;
+    {
+      /* too expensive to hash to the end: still, crypt must *accept* the setting.  A refusal comes back at once; an accepted
+         setting is still hashing when the 40 ms timer abandons the call.  One probe per (prefix, count) for two fills. */
+      if (nrb == 16 && (fill == 0 || fill == 2))
+        {
+          char *h = 0;
+          vh_mmap_capped = 0;
+          int kk = VH_TRY (40);
+          if (kk == 0)
+            {
+              errno = 0;
+              h = crypt_rn ("pa55w0rd", S, cd, sizeof *cd);
+              VH_END ();
+            }
+          vh_stat ("acceptance_probes", 1);
+          if (kk == VH_TIMEOUT)
+            vh_stat ("acceptance_probes_still_hashing", 1);
+          else if (kk)
+            {
+              snprintf (sig, sizeof sig, "fatal-in-crypt/%s/method=%s", vh_fatal_name (kk), vh_methods[m].name);
+              vh_viol (sig, "%s,\"setting\":%s,\"outcome\":\"%s\"}", cj, vh_jstr (S), vh_js (vh_fatal_msg, strlen (vh_fatal_msg)));
+            }
+          else if (!h && vh_mmap_capped)
+            vh_stat ("acceptance_probes_over_the_mapping_cap", 1);      /* the harness refused the working area: nothing learnt */
+          else if (!h)
+            {
+              snprintf (sig, sizeof sig, "generated-setting-rejected/method=%s", vh_methods[m].name);
+              vh_viol (sig, "%s,\"setting\":%s,\"errno\":%d,\"probe\":\"acceptance only\"}", cj, vh_jstr (S), errno);
+            }
+          vh_mmap_capped = 0;
+        }
+      return;
+    }
   /* hashing with the generated setting succeeds and keeps the setting as a literal prefix */
   char p200[201];
   vh_fill (p200, 200, 'P');
